@@ -1222,6 +1222,10 @@ func (r *run) tamper(s step) {
 		}
 	}
 	r.emit(ev)
+	if drv.Str(s["via"]) == "combine" { // the altered lock reaches verification through `combine` (one node directory holds it)
+		r.combineTampered(drv.Num(s["at"]), file)
+		return
+	}
 	// load + verify the altered file
 	r.current = file
 	lev := step{"ev": "LoadT", "ok": false, "heq": false}
@@ -1249,6 +1253,48 @@ func (r *run) tamper(s step) {
 	}()
 	r.emit(lev)
 	r.verify()
+}
+
+// combineTampered hands ALL node directories to combine.Combine, node j's cluster-lock.json being the altered file.
+func (r *run) combineTampered(j int, file []byte) {
+	ev := step{"ev": "CombineT", "node": j, "ok": false}
+	defer func() { r.emit(ev) }()
+	in := filepath.Join(r.dir, "combt_in")
+	out := filepath.Join(r.dir, "combt_out")
+	os.RemoveAll(in)
+	os.RemoveAll(out)
+	defer os.RemoveAll(in)
+	defer os.RemoveAll(out)
+	if err := os.MkdirAll(in, 0o755); err != nil {
+		ev["err"] = err.Error()
+		return
+	}
+	for n := 0; n < r.cfg.N; n++ {
+		name := fmt.Sprintf("node%d", n)
+		if err := linkTree(filepath.Join(r.dir, name), filepath.Join(in, name)); err != nil {
+			ev["err"] = "link: " + err.Error()
+			return
+		}
+	}
+	lf := filepath.Join(in, fmt.Sprintf("node%d", j), "cluster-lock.json")
+	_ = os.Remove(lf) // a hard link to the pristine file: replace, never write through
+	if err := os.WriteFile(lf, file, 0o644); err != nil {
+		ev["err"] = "write: " + err.Error()
+		return
+	}
+	err := func() (err error) {
+		defer func() {
+			if p := recover(); p != nil {
+				err = fmt.Errorf("panic: %v", p)
+			}
+		}()
+		return combine.Combine(context.Background(), in, out, false, false, "", eth2util.Network{}, combine.WithInsecureKeysForT(r.t))
+	}()
+	if err != nil {
+		ev["err"] = trunc(err.Error())
+		return
+	}
+	ev["ok"] = true
 }
 
 func trunc(s string) string {
